@@ -94,14 +94,18 @@ Section Bridge.
       split_ifs; rewrite ?Hgt, ?Hlt, ?Heq; cbn [bind]; split_ifs; try reflexivity; try (cbn [negb] in *; congruence).
   Qed.
 
-  (* ---------------------------------------------------------------- sign mix-ins *)
+  (* ---------------------------------------------------------------- sign mix-ins: a non-number passes (Ok) *)
   Lemma generated_positive : forall self v,
       Positive__set re_match self v = (_ <- sign_check SPositive v ;; Ok v).
   Proof.
     intros self v. unfold Positive__set, sign_check, py_le, zint, zero. cbn [as_num].
     destruct (as_num v) as [n|] eqn:Hv; cbn [bind].
-    - destruct (num_leb n (NInt 0)); reflexivity.
-    - destruct v; try discriminate Hv; reflexivity.
+    - assert (Hin : py_isinstance v [K_float; K_int; K_Decimal] = true).
+      { destruct v; try discriminate Hv; [reflexivity | apply isinst_num]. }
+      rewrite Hin. cbn [py_and bind]. destruct (num_leb n (NInt 0)); reflexivity.
+    - assert (Hin : py_isinstance v [K_float; K_int; K_Decimal] = false).
+      { destruct v; try discriminate Hv; reflexivity. }
+      rewrite Hin. reflexivity.
   Qed.
 
   Lemma generated_negative : forall self v,
@@ -109,8 +113,12 @@ Section Bridge.
   Proof.
     intros self v. unfold Negative__set, sign_check, py_ge, py_le, zint, zero. cbn [as_num].
     destruct (as_num v) as [n|] eqn:Hv; cbn [bind].
-    - destruct (num_leb (NInt 0) n); reflexivity.
-    - destruct v; try discriminate Hv; reflexivity.
+    - assert (Hin : py_isinstance v [K_float; K_int; K_Decimal] = true).
+      { destruct v; try discriminate Hv; [reflexivity | apply isinst_num]. }
+      rewrite Hin. cbn [py_and bind]. destruct (num_leb (NInt 0) n); reflexivity.
+    - assert (Hin : py_isinstance v [K_float; K_int; K_Decimal] = false).
+      { destruct v; try discriminate Hv; reflexivity. }
+      rewrite Hin. reflexivity.
   Qed.
 
   Lemma generated_nonpositive : forall self v,
@@ -118,8 +126,12 @@ Section Bridge.
   Proof.
     intros self v. unfold NonPositive__set, sign_check, py_gt, py_lt, zint, zero. cbn [as_num].
     destruct (as_num v) as [n|] eqn:Hv; cbn [bind].
-    - destruct (num_ltb (NInt 0) n); reflexivity.
-    - destruct v; try discriminate Hv; reflexivity.
+    - assert (Hin : py_isinstance v [K_float; K_int; K_Decimal] = true).
+      { destruct v; try discriminate Hv; [reflexivity | apply isinst_num]. }
+      rewrite Hin. cbn [py_and bind]. destruct (num_ltb (NInt 0) n); reflexivity.
+    - assert (Hin : py_isinstance v [K_float; K_int; K_Decimal] = false).
+      { destruct v; try discriminate Hv; reflexivity. }
+      rewrite Hin. reflexivity.
   Qed.
 
   Lemma generated_nonnegative : forall self v,
@@ -127,8 +139,12 @@ Section Bridge.
   Proof.
     intros self v. unfold NonNegative__set, sign_check, py_lt, zint, zero. cbn [as_num].
     destruct (as_num v) as [n|] eqn:Hv; cbn [bind].
-    - destruct (num_ltb n (NInt 0)); reflexivity.
-    - destruct v; try discriminate Hv; reflexivity.
+    - assert (Hin : py_isinstance v [K_float; K_int; K_Decimal] = true).
+      { destruct v; try discriminate Hv; [reflexivity | apply isinst_num]. }
+      rewrite Hin. cbn [py_and bind]. destruct (num_ltb n (NInt 0)); reflexivity.
+    - assert (Hin : py_isinstance v [K_float; K_int; K_Decimal] = false).
+      { destruct v; try discriminate Hv; reflexivity. }
+      rewrite Hin. reflexivity.
   Qed.
 
   (* ---------------------------------------------------------------- String._validate_static *)
@@ -173,9 +189,6 @@ Section Bridge.
       change (py_isinstance (PStr s) [K_str]) with true.
       cbn [py_not py_and bind negb py_in existsb py_eq orb].
       rewrite HT, HF. reflexivity.
-    - (* tuple: hashable or not, a TypeError either way *)
-      unfold py_in_hashed. cbn [py_hashable']. destruct (forallb py_hashable' l); reflexivity.
-    - destruct frozen; reflexivity.
   Qed.
 
   (* ---------------------------------------------------------------- SizedCollection.validate_size *)
